@@ -104,7 +104,13 @@ J gen(uint64_t seed, bool thorough) {
     long n = s == nseg - 1 ? T - cur : r.range(1, std::max(1L, T - cur - 1));
     J op = J::obj(); op["w"] = 0; op["op"] = "run"; op["n"] = (long long)n; op["end"] = "graceful"; ops.push(op);
     cur += n;
-    if (s < nseg - 1 && r.chance(0.5)) { J rs = J::obj(); rs["w"] = 0; rs["op"] = "resume"; ops.push(rs); }
+    if (s < nseg - 1 && r.chance(keep && rebin ? 0.9 : 0.5)) {
+      J rs = J::obj(); rs["w"] = 0; rs["op"] = "resume";
+      // rebinning from kept hills onto ANOTHER grid: the resumed job moves the lower boundary by a non-integer number of bins and
+      // extends the upper one (same width, so that a hillWidth-based sigma stays what it was)
+      if (keep && rebin && !expand && r.chance(0.7)) { rs["shift_lo"] = (double)r.range(0, 2) + 0.37; rs["shift_hi"] = (double)r.range(0, 2) + 0.63; sig += "G"; }
+      ops.push(rs);
+    }
   }
   plan["ops"] = ops;
   return plan;
@@ -210,6 +216,24 @@ RunResult run(J const &plan) {
       add_steps(res, *e);
       e.reset();
       e.reset(new Engine(ec));
+      if (op.has("shift_lo")) {
+        // new boundaries for every gridded variable
+        double slo = op.at("shift_lo").as_num(), shi = op.at("shift_hi").as_num(); size_t p = 0; int moved = 0;
+        while ((p = config.find("colvar {", p)) != std::string::npos) {
+          size_t end = config.find("\n}\n", p); if (end == std::string::npos) break;
+          size_t pw = config.find("  width ", p), pl = config.find("  lowerBoundary ", p), pu = config.find("  upperBoundary ", p);
+          if (pw < end && pl < end && pu < end && config.compare(p, end - p, "") != 0 && config.substr(p, end - p).find("dihedral") == std::string::npos) {
+            double w = strtod(config.c_str() + pw + 8, nullptr), lo = strtod(config.c_str() + pl + 16, nullptr), up = strtod(config.c_str() + pu + 16, nullptr);
+            char bl[64], bu[64]; snprintf(bl, sizeof bl, "%.12g", lo - slo * w); snprintf(bu, sizeof bu, "%.12g", up + shi * w);
+            // (replace the later line first so that the earlier offset stays valid)
+            if (pl < pu) { config.replace(pu + 16, config.find('\n', pu) - pu - 16, bu); config.replace(pl + 16, config.find('\n', pl) - pl - 16, bl); }
+            else { config.replace(pl + 16, config.find('\n', pl) - pl - 16, bl); config.replace(pu + 16, config.find('\n', pu) - pu - 16, bu); }
+            moved++;
+          }
+          p = config.find("\n}\n", p); if (p == std::string::npos) break; p += 3;
+        }
+        if (moved) res.counters["fault.grid_moved_at_resume"]++;
+      }
       e->configure(config);
       cvm::clear_error();
       if (e->load_state("/simfs/w0/out") != COLVARS_OK || cvm::get_error()) { res.fail("meta_model", "load_error", e->last_error()); break; }
